@@ -80,7 +80,7 @@ CLAIMED = {
     ),
     "C17": (
         "runtime monitor, exhaustive product of code-word variants x places x types; documented-place oracle (three-valued), cross-type agreement, predicate-implies-method check through the real parse plugin",
-        "Exhaustive exploration of the product the property quantifies over (18 field-72 variants x 6 {108:} variants x 5 {119:} variants) on real messages of MT103/202/205 and of each other type, plus MT202 with a cover sequence carrying none / one / both customer fields: classification iff code word at a documented place, return-only never reject, same words same classification across supporting types, plugin method = method implied by the predicates.",
+        "Exhaustive exploration of the product the property quantifies over (20 field-72 variants x 6 {108:} variants x 5 {119:} variants) on real messages of MT103/202/205 and of each other type, plus MT202 with a cover sequence carrying none / one / both customer fields: classification iff code word at a documented place, return-only never reject, same words same classification across supporting types, plugin method = method implied by the predicates.",
         "Documented places are restated in the harness (line start of field 72, whole {108:} value); other spellings are only used for agreement checks.",
         "DESIGN.md section 3, C17",
     ),
